@@ -111,7 +111,6 @@ Init == \/ /\ "genome" \in Modes /\ mode = "genome" /\ phase = "traits" /\ g = E
            /\ x \in SeqsUpTo(SeqsUpTo(GenChoices, MaxGens), MaxTrials)
 
 Emittable == mode = "genome" /\ phase \in {"genes", "mods"} /\ g.genes # <<>>
-CompactG(gg) == [pool |-> gg.id % 10, id |-> gg.id]
 CaseOf ==
     CASE mode = "genome" ->
            [kind |-> "genome", g |-> g, plain |-> Render(PlainLines(g)), yaml |-> YamlDoc(g),
@@ -151,6 +150,6 @@ Population == /\ mode = "genome" /\ g.genes # <<>> => PopLaw(<<g, [g EXCEPT !.id
               /\ mode = "pop" => PopLaw(x)
 FastModel == mode = "genome" /\ phase \in {"genes", "mods"} => FastLaw(FastOf(g, "net"))
 ExperimentFile == mode = "exp" => ExpLaw(ExpOf(x))
-(* the models really distinguish what the laws are about (no vacuous equalities) *)
+(* the writer model only produces tokens of the four lexical types the reader model reads *)
 TokensTyped == mode = "genome" => \A ln \in Rng(PlainLines(g)) : \A t \in Rng(ln) : t.k \in {"i", "f", "b", "s"}
 =============================================================================
